@@ -195,6 +195,76 @@ private def w (wid uid : String) (g : Nat) : CheckResult :=
     trigger := { blockNumber := 1, blockHash := "", ext := none }, workID := wid, gas := g,
     performData := "", fastGasWei := some 1, linkNative := some 1 }
 
+/-! ### a failing report encoder -/
+
+private theorem loopE_eq (cfg : Cfg) (f : Nat) (rs cur : List CheckResult) (gas k : Nat) (acc : List (List CheckResult)) :
+    loopE cfg f rs cur gas k acc =
+      (let rest := loop flush cfg rs cur gas
+       if f ≤ k ∨ f > k + rest.length then (acc ++ rest, false) else (acc ++ rest.take (f - 1 - k), true)) := by
+  induction rs generalizing cur gas k acc with
+  | nil =>
+    unfold loopE loop
+    by_cases hc : cur.length > 0
+    · simp only [hc, if_true, List.length_singleton]
+      by_cases hk : k + 1 = f
+      · have h1 : ¬ (f ≤ k ∨ f > k + 1) := by omega
+        have h2 : f - 1 - k = 0 := by omega
+        simp [hk, h1, h2]
+        omega
+      · have h1 : (f ≤ k ∨ f > k + 1) := by omega
+        simp [hk, h1]
+    · simp [hc]
+  | cons r rs ih =>
+    unfold loopE loop
+    by_cases hfl : flush cfg cur gas r = true
+    · simp only [hfl, if_true, List.length_cons]
+      by_cases hk : k + 1 = f
+      · have h1 : ¬ (f ≤ k ∨ f > k + ((loop flush cfg rs [r] (r.gas + cfg.overhead)).length + 1)) := by omega
+        have h2 : f - 1 - k = 0 := by omega
+        simp [hk, h1, h2]
+      · rw [if_neg hk, ih]
+        simp only []
+        by_cases h1 : f ≤ k + 1 ∨ f > k + 1 + (loop flush cfg rs [r] (r.gas + cfg.overhead)).length
+        · have h1' : f ≤ k ∨ f > k + ((loop flush cfg rs [r] (r.gas + cfg.overhead)).length + 1) := by omega
+          simp [h1, h1']
+        · have h1' : ¬ (f ≤ k ∨ f > k + ((loop flush cfg rs [r] (r.gas + cfg.overhead)).length + 1)) := by omega
+          have h2 : f - 1 - k = (f - 1 - (k + 1)) + 1 := by omega
+          simp [h1, h1', h2]
+    · simp only [hfl]
+      exact ih _ _ _ _
+
+/-- **a failing encoder truncates, it never drops from the middle**: `Reports` returns all reports and no error when the
+encoder never fails during the call; when its `f`-th call fails it returns exactly the first `f - 1` reports of the
+fault-free run together with an error — so a caller that discards the result of a failed call (libocr does) never uses
+a report list that is missing a performable in the middle -/
+theorem reportsCall_eq_take (cfg : Cfg) (a : List CheckResult) (f : Nat) :
+    reportsCall cfg a f =
+      if f = 0 ∨ f > (reports cfg a).length then (reports cfg a, false) else ((reports cfg a).take (f - 1), true) := by
+  unfold reportsCall
+  rw [loopE_eq]
+  simp only [reports, Nat.le_zero_eq, Nat.zero_add, List.nil_append, Nat.sub_zero]
+  rfl
+
+/-- no error ⇒ the whole statement of C04 holds of what was returned -/
+theorem reportsCall_ok_spec (cfg : Cfg) (hb : 1 ≤ cfg.batch) (a : List CheckResult) (f : Nat)
+    (h : (reportsCall cfg a f).2 = false) : spec cfg a (reportsCall cfg a f).1 = true := by
+  rw [reportsCall_eq_take] at h ⊢
+  split at h
+  · rename_i hc; simp only [hc, if_true]; exact reports_spec cfg hb a
+  · simp at h
+
+/-- an error is returned exactly when the armed call is reached -/
+theorem reportsCall_err_iff (cfg : Cfg) (a : List CheckResult) (f : Nat) :
+    (reportsCall cfg a f).2 = true ↔ (1 ≤ f ∧ f ≤ (reports cfg a).length) := by
+  rw [reportsCall_eq_take]
+  split
+  · rename_i hc; simp; omega
+  · rename_i hc; simp; omega
+
+example : reportsCall { batch := 1, gasLimit := 100, overhead := 1 }
+    [{ (default : CheckResult) with upkeepID := "a" }, { (default : CheckResult) with upkeepID := "b" }] 2
+    = ([[{ (default : CheckResult) with upkeepID := "a" }]], true) := by decide
+
 /-- the un-repaired loop emits an empty report when the first performable alone exceeds the limit -/
 theorem reportsOld_empty_report :
     [] ∈ reportsOld { batch := 10, gasLimit := 1000, overhead := 0 } [w "a" "1" 5000, w "b" "2" 10] := by
